@@ -8,7 +8,7 @@ package main
 // is one that no code of `ego run` recovers, i.e. it would have ended the process.  The driver only records what
 // happened (T-style outcome log); the TLA+ contract EgoCrash_Trace judges the log.
 //
-// Protocol: VERIF_IN  ndjson {"id":..,"src":..}      VERIF_OUT ndjson, two lines per case:
+// Protocol: VERIF_IN  ndjson {"id":..,"src":..} (VERIF_LATIN1: one code point per byte of the text)      VERIF_OUT ndjson, two lines per case:
 //   {"id":..,"ev":"start"}  (flushed before the case runs: a process that dies names the case that killed it)
 //   {"id":..,"ev":"end","panic":bool,"msg":..,"site":..,"kind":..,"timeout":bool,"stopped":bool,"err":bool,"ms":..}
 // A case that does not finish within VERIF_CASE_MS is interrupted (SIGINT is what stops a running Ego context, see
@@ -130,6 +130,7 @@ func TestVerifC07(t *testing.T) {
 	if maxAb <= 0 {
 		maxAb = 8
 	}
+	latin1 := os.Getenv("VERIF_LATIN1") != ""
 	if err := app.SetEnvironment(".ego"); err != nil {
 		t.Fatal(err)
 	}
@@ -165,7 +166,14 @@ func TestVerifC07(t *testing.T) {
 			continue
 		}
 		file := filepath.Join(dir, fmt.Sprintf("case-%d-%d.ego", os.Getpid(), c.ID))
-		if os.WriteFile(file, []byte(c.Src), 0o644) != nil {
+		text := []byte(c.Src)
+		if latin1 { // every byte of the text travels as one code point
+			text = text[:0]
+			for _, r := range c.Src {
+				text = append(text, byte(r))
+			}
+		}
+		if os.WriteFile(file, text, 0o644) != nil {
 			t.Fatal("cannot write case file")
 		}
 		emit(map[string]any{"id": c.ID, "ev": "start"})
